@@ -20,9 +20,10 @@ class IdRules:
         if len(sp) != 1:
             raise AnalysisBroken('HeartBeater: expected exactly one shared_ptr member (the heartbeat), found %d' % len(sp))
         self.idf = sp[0]['name']
-        arr = [g for g in fx.globals.values() if g.get('extent') and 'atomic<bool>' in g['type'].get('ct', '') and g['file'].endswith('id_manager.cpp')]
+        arr = [g for g in fx.globals.values() if g.get('extent') and ('atomic<bool>' in g['type'].get('ct', '') or 'atomic_flag' in g['type'].get('ct', ''))
+               and g['file'].endswith('id_manager.cpp')]
         if len(arr) != 1:
-            raise AnalysisBroken('id_manager.cpp: reservation array (atomic<bool>[N]) not found uniquely')
+            raise AnalysisBroken('id_manager.cpp: reservation array (atomic<bool>[N] / atomic_flag[N]) not found uniquely')
         self.arr = arr[0]
         self.extent = int(self.arr['extent'])
         self.dtor = self.one([f for f in fx.functions.values() if f.get('record') == self.hb_rec['name'] and f['kind'] == 'dtor'], '~HeartBeater')
@@ -48,6 +49,17 @@ class IdRules:
     def id_obj(self):
         return ('field', S('this'), self.idf)
 
+    def idiom_guard(self):
+        """the rules identify a reservation flag by its subscript expression; flags reached through pointers / iterators
+        into the array are an idiom the rules cannot follow: say so (exit 2) instead of judging"""
+        for f in self.fns:
+            for p in self.paths[f['key']]['paths']:
+                for e in p.events:
+                    if e['kind'] == 'atomic' and not self.is_flag(e['obj']) and isinstance(e['obj'], tuple) and e['obj'][0] == 'deref' \
+                            and f['tu'] == 'id_manager.cpp':
+                        raise AnalysisBroken('%s:%s: %s reaches an atomic object through a pointer (%s), not by subscript of the reservation array: '
+                                             'idiom not supported by the ID rules' % (f['file'], e['line'], sname(f['name']), show(e['obj'])[:60]))
+
     # ------------------------------------------------------------------ C15
     def c15(self):
         sink, f = self.sink, self.dtor
@@ -57,7 +69,23 @@ class IdRules:
         for p in res['paths']:
             loc = '%s:%s' % (f['file'], f['line'])
             expire = None
+            owner = self.id_obj()      # the object that keeps the control block alive: the member, or a local it was moved into
+            owners = [owner]
+            member_sym = S(show(self.id_obj()))
             for e in p.events:
+                if e['kind'] == 'decl' and e.get('value') == member_sym and 'shared_ptr' in str((e.get('type') or {}).get('ct', e.get('type'))) \
+                        and p.store.get(self.id_obj()) is not None and is_const(p.store.get(self.id_obj())) and owner == self.id_obj():
+                    # `auto local = std::exchange(id_, nullptr)` / std::move(id_) followed by id_ = nullptr: the local is the last owner now
+                    owner = ('var', e['did'], e['name'])
+                    owners.append(owner)
+                    continue
+                if e['kind'] == 'auto_dtor' and owner[0] == 'var' and e.get('did') == owner[1]:
+                    expire = expire or e
+                    continue
+                if owner != self.id_obj():
+                    if e['kind'] == 'call' and e.get('obj') == owner and e.get('name') in ('reset',) and not (e.get('args') or ()):
+                        expire = expire or e
+                    continue
                 if e['kind'] == 'call' and e.get('obj') == self.id_obj() and e.get('name') in ('reset', 'operator=', 'swap') and not e.get('const_method'):
                     # reset() / reset(nullptr) / = nullptr / = {} drop the control block reference
                     args = e.get('args') or ()
@@ -94,7 +122,7 @@ class IdRules:
                       'the expiry must happen-before the claimer\'s use of the ID: FREE needs release semantics')
             # index of the freed flag = the ID this object holds (read before the heartbeat was dropped)
             idx = free['obj'][2]
-            derefs = [e for e in p.events if e['kind'] == 'call' and e.get('obj') == self.id_obj() and e.get('name') in ('operator*', 'get', 'operator->')]
+            derefs = [e for e in p.events if e['kind'] == 'call' and e.get('obj') in owners and e.get('name') in ('operator*', 'get', 'operator->')]
             reads = [e for e in p.events if e['kind'] == 'read' and e['path'][0] == 'deref' and any(show(d['result']) in show(e['path']) for d in derefs)]
             good = bool(derefs) and derefs[0]['seq'] < expire['seq'] and any(repr(d['result']) in repr(idx) or show(d['result']) in show(idx) for d in derefs) \
                 and bool(reads) and reads[0]['seq'] < expire['seq']
@@ -223,7 +251,7 @@ class IdRules:
                   'storage %s' % (decl['storage'] if decl else '?'))
         # other writers of flags
         for g in self.fx.functions.values():
-            if g['tu'] != 'id_manager.cpp' or g['key'] in (f['key'], self.dtor['key']) or self.eng.inline_helper(g):
+            if g['tu'] != 'id_manager.cpp' or g['key'] in (f['key'], self.dtor['key']) or self.eng.private_helper(g):
                 continue     # helpers are analysed inside their callers
             for p in self.eng.paths(g)['paths']:
                 for e in self.flag_events(p):
@@ -291,18 +319,26 @@ class IdRules:
                     if ev2['kind'] in ('assign_local', 'decl') and (ev2.get('path', (0, 0, ev2.get('name')))[2] or '') and \
                             (ev2.get('path', (0, 0, ev2.get('name')))[2] + '~') in show(e['obj'][2]):
                         probe_vars.add(ev2.get('path', (0, 0, ev2.get('name')))[2])
+        from pathsim import mk_op
         for p in res['paths']:
+            curv = {}      # variable name -> value before the update (declarations, widened loop variables, earlier updates)
             for e in p.events:
+                if e['kind'] == 'decl' and 'value' in e:
+                    curv[e['name']] = e['value']
+                elif e['kind'] == 'loop_head':
+                    curv.update(e.get('locals') or {})
                 if e['kind'] == 'assign_local' and e['path'][2] and e['path'][0] == 'var':
                     v = e['value']
                     name = e['path'][2]
-                    if not any(name in show(x['obj'][2]) or True for x in self.flag_events(p)):
-                        continue
+                    prev = curv.get(name)
+                    curv[name] = v
                     def plus1(x):
                         return isinstance(x, tuple) and x[0] == 'op' and x[1] == '+' and is_const(x[3]) and x[3][1] == 1
                     N = self.extent
                     if is_const(v) and v[1] == 0:
                         steps += 1
+                    elif prev is not None and v == mk_op('+', prev, C(1, 64), 64):
+                        steps += 1    # previous value + 1 (folded when the previous value was a constant)
                     elif plus1(v) or (is_const(v) and e.get('how') == '++'):
                         steps += 1
                     elif isinstance(v, tuple) and v[0] == 'op' and v[1] == '%' and is_const(v[3]) and v[3][1] == N and (plus1(v[2]) or is_const(v[2])):
@@ -380,6 +416,7 @@ def analyse(fx, eng):
     if k not in _cache:
         sink = Sink()
         r = IdRules(fx, eng, sink)
+        r.idiom_guard()
         r.c15()
         r.c05()
         r.c14()
